@@ -1,4 +1,5 @@
 (* C01/Lemmas.v — proofs about the normaliser of C01/Model.v *)
+From Coq Require Import Permutation.
 From V Require Import Base.Text C01.Model.
 Open Scope N_scope.
 Open Scope list_scope.
@@ -145,5 +146,700 @@ Ltac tok_facts :=
          | H : is_tok_o ?x ?s = true |- _ => apply is_tok_o_true in H; try subst x
          end.
 Ltac ess_done := autorewrite with ess; rewrite <- ?app_assoc; try reflexivity.
+
+
+Lemma len_ind {A : Type} (P : list A -> Prop) :
+  (forall l, (forall l', (length l' < length l)%nat -> P l') -> P l) -> forall l, P l.
+Proof.
+  intros H l. remember (length l) as n eqn:Hn. revert l Hn.
+  induction n as [n IH] using lt_wf_ind. intros l Hn. apply H. intros l' Hl. apply (IH (length l')); [lia|reflexivity].
+Qed.
+
+Lemma rev_cons_inv {A : Type} (l : list A) y r : rev l = y :: r -> l = rev r ++ [y].
+Proof. intros H. rewrite <- (rev_involutive l), H. reflexivity. Qed.
+
+Lemma app_eq_two {A : Type} (a b : list A) x y :
+  a ++ b = [x; y] -> (a = [] /\ b = [x; y]) \/ (a = [x] /\ b = [y]) \/ (a = [x; y] /\ b = []).
+Proof.
+  destruct a as [|a1 [|a2 [|a3 a]]]; cbn [app]; intros H.
+  - left. auto.
+  - right. left. inversion H. auto.
+  - right. right. inversion H. auto.
+  - inversion H.
+Qed.
+
+Lemma glue_pair_ess a b : glue_pair a b = true -> E_item (Tok (a ++ b)) = E_item (Tok a) ++ E_item (Tok b).
+Proof.
+  unfold glue_pair. intros H. apply mem_text_In in H.
+  destruct H as [H|[H|[H|[]]]]; symmetry in H; apply app_eq_two in H;
+    destruct H as [[-> ->]|[[-> ->]|[-> ->]]]; reflexivity.
+Qed.
+
+Lemma glue_eq a b rest : glue (Tok a :: Tok b :: rest) =
+  if glue_pair a b then Tok (a ++ b) :: glue rest else Tok a :: glue (Tok b :: rest).
+Proof. reflexivity. Qed.
+Lemma E_glue seq : E (glue seq) = E seq.
+Proof.
+  induction seq as [|x|x y l IH1 IH2] using list_ind2; [reflexivity|destruct x; reflexivity|].
+  destruct x as [a|d its].
+  - destruct y as [b|d its].
+    + rewrite glue_eq. destruct (glue_pair a b) eqn:Hg.
+      * rewrite !E_cons. rewrite (glue_pair_ess _ _ Hg), IH1, app_assoc. reflexivity.
+      * rewrite E_cons, IH2. reflexivity.
+    + change (glue (Tok a :: Grp d its :: l)) with (Tok a :: glue (Grp d its :: l)).
+      rewrite E_cons, IH2. reflexivity.
+  - change (glue (Grp d its :: y :: l)) with (Grp d its :: glue (y :: l)).
+    rewrite E_cons, IH2. reflexivity.
+Qed.
+
+(* block tails *)
+Lemma drops_tail_semi_inv items : drops_tail_semi items = true -> items = removelast items ++ [Tok s_semi].
+Proof.
+  unfold drops_tail_semi. destruct (rev items) as [|y r] eqn:Hr; [discriminate|].
+  intros H. apply andb_true_iff in H. destruct H as [H _]. apply is_tok_true in H. subst y.
+  apply rev_cons_inv in Hr. rewrite Hr at 1. rewrite Hr, removelast_last. reflexivity.
+Qed.
+Lemma last_is_inv items s : last_is items s = true -> items = removelast items ++ [Tok s].
+Proof.
+  unfold last_is. destruct (rev items) as [|y r] eqn:Hr; [discriminate|].
+  intros H. apply is_tok_true in H. subst y.
+  apply rev_cons_inv in Hr. rewrite Hr at 1. rewrite Hr, removelast_last. reflexivity.
+Qed.
+Lemma E_removelast_semi items : drops_tail_semi items = true -> E (removelast items) = E items.
+Proof. intros H. apply drops_tail_semi_inv in H. rewrite H at 2. rewrite E_app. ess_done. Qed.
+Lemma E_removelast_comma items : last_is items s_comma = true -> E (removelast items) = E items.
+Proof. intros H. apply last_is_inv in H. rewrite H at 2. rewrite E_app. ess_done. Qed.
+
+Lemma E_block_tail x : E_item (block_tail x) = E_item x.
+Proof.
+  destruct x as [t|d items]; [reflexivity|]. destruct d; try reflexivity.
+  cbn [block_tail]. destruct (drops_tail_semi items) eqn:H; [|reflexivity].
+  cbn [E_item]. apply (E_removelast_semi _ H).
+Qed.
+Lemma E_block_tails seq : E (block_tails seq) = E seq.
+Proof.
+  unfold block_tails. induction seq as [|x r IH]; [reflexivity|].
+  cbn [map]. rewrite !E_cons, E_block_tail, IH. reflexivity.
+Qed.
+
+(* unwrap *)
+Lemma unwrap_eq x : unwrap x =
+  if single_expr_block x then
+    match x with
+    | Grp _ its => match its with [y] => unwrap y | _ => its end
+    | Tok _ => [x]
+    end
+  else [x].
+Proof. destruct x; reflexivity. Qed.
+Lemma E_unwrap x : E (unwrap x) = E_item x.
+Proof.
+  induction x as [s|d its IH] using item_ind'.
+  - rewrite unwrap_eq. destruct (single_expr_block (Tok s)); apply E_single.
+  - rewrite unwrap_eq. destruct (single_expr_block (Grp d its)); [|apply E_single].
+    destruct its as [|y [|z its]]; try reflexivity.
+    inversion IH as [|? ? Hy _]; subst. rewrite Hy. cbn [E_item]. symmetry. apply E_single.
+Qed.
+
+(* arms *)
+Lemma arms_eq brace x nxt rest2 : arms brace (x :: nxt :: rest2) =
+  if is_tok x s_fatarrow && brace && is_grp nxt DBrace then
+    let rest3 := match rest2 with
+                 | a :: r3 => if is_tok a s_comma then r3 else rest2
+                 | [] => rest2
+                 end in
+    x :: unwrap nxt ++ (match rest3 with [] => [] | _ :: _ => [Tok s_comma] end) ++ arms brace rest3
+  else x :: arms brace (nxt :: rest2).
+Proof. reflexivity. Qed.
+Lemma E_arms brace seq : E (arms brace seq) = E seq.
+Proof.
+  induction seq as [seq IH] using len_ind.
+  destruct seq as [|x [|nxt rest2]]; [reflexivity|reflexivity|].
+  rewrite arms_eq.
+  destruct (is_tok x s_fatarrow && brace && is_grp nxt DBrace) eqn:Hc; cbv zeta.
+  - set (rest3 := match rest2 with a :: r3 => if is_tok a s_comma then r3 else rest2 | [] => rest2 end).
+    assert (H3 : E rest3 = E rest2 /\ (length rest3 <= length rest2)%nat).
+    { subst rest3. destruct rest2 as [|a r3]; [split; [reflexivity|lia]|].
+      destruct (is_tok a s_comma) eqn:Ha; [|split; [reflexivity|lia]].
+      apply is_tok_true in Ha. subst a. split; [ess_done|cbn [length]; lia]. }
+    destruct H3 as [H3 H3l].
+    rewrite !E_cons, !E_app, E_unwrap, IH by (cbn [length]; lia). rewrite H3.
+    destruct rest3; ess_done.
+  - rewrite E_cons, IH by (cbn [length]; lia). reflexivity.
+Qed.
+
+(* closures *)
+Lemma find_close_spec l : forall acc p after,
+  find_close l acc = Some (p, after) -> rev acc ++ l = rev p ++ Tok s_pipe :: after.
+Proof.
+  induction l as [|y l IH]; intros acc p after; cbn [find_close]; [discriminate|].
+  destruct (is_tok y s_pipe) eqn:Hy.
+  - intros H. inversion H; subst. apply is_tok_true in Hy. subst y. reflexivity.
+  - destruct (is_tok y s_semi || is_tok y s_fatarrow); [discriminate|].
+    intros H. apply IH in H. cbn [rev] in H. rewrite <- app_assoc in H. exact H.
+Qed.
+
+Lemma E_closures fuel : forall res l, E (closures fuel res l) = E (rev res) ++ E l.
+Proof.
+  induction fuel as [|f IH]; intros res l; cbn [closures]; [apply E_app|].
+  destruct l as [|x rest]; [ess_done|].
+  destruct (is_tok x s_pipe && starts_expr (hd_error res)) eqn:Hc.
+  2:{ rewrite IH. ess_done. }
+  destruct (find_close rest []) as [[params_rev after]|] eqn:Hf.
+  2:{ rewrite IH. ess_done. }
+  apply find_close_spec in Hf. cbn [rev app] in Hf.
+  set (p' := match params_rev with y :: p' => if is_tok y s_comma then p' else params_rev | [] => [] end).
+  assert (Hp : E (rev p') = E (rev params_rev)).
+  { subst p'. destruct params_rev as [|y q]; [reflexivity|].
+    destruct (is_tok y s_comma) eqn:Hy; [|reflexivity]. apply is_tok_true in Hy. subst y. ess_done. }
+  rewrite Hf.
+  destruct after as [|b after'].
+  - rewrite IH. ess_done. rewrite Hp. reflexivity.
+  - destruct (single_expr_block b && negb (existsb (fun t => is_tok t s_fatarrow) (x :: rev p'))).
+    + rewrite IH. rewrite !rev_app_distr, rev_involutive. cbn [rev]. rewrite !rev_app_distr. cbn [rev app].
+      ess_done. rewrite E_unwrap, Hp. ess_done.
+    + rewrite IH. ess_done. rewrite Hp. reflexivity.
+Qed.
+
+Lemma E_lead_pipes brace l : forall final, E (lead_pipes brace final l) = E (rev final) ++ E l.
+Proof.
+  induction l as [|x rest IH]; intros final; cbn [lead_pipes]; [ess_done|].
+  destruct (is_tok x s_pipe && brace && arm_start final && arrow_before_comma rest) eqn:Hc.
+  - tok_facts. rewrite IH. ess_done.
+  - rewrite IH. ess_done.
+Qed.
+Lemma E_drop_arm_commas l : forall prev, E (drop_arm_commas prev l) = E l.
+Proof.
+  induction l as [|x r IH]; intros prev; cbn [drop_arm_commas]; [reflexivity|].
+  destruct (is_tok x s_comma && is_grp_o prev DBrace) eqn:Hc.
+  - tok_facts. rewrite IH. ess_done.
+  - rewrite !E_cons, IH. reflexivity.
+Qed.
+Lemma E_arms_and_closures ctx seq : E (arms_and_closures ctx seq) = E seq.
+Proof.
+  unfold arms_and_closures.
+  assert (H : E (lead_pipes (is_brace ctx) [] (closures_run (arms (is_brace ctx) seq))) = E seq).
+  { rewrite E_lead_pipes. unfold closures_run. rewrite E_closures, E_arms. reflexivity. }
+  destruct (is_brace ctx && _); [rewrite E_drop_arm_commas|]; exact H.
+Qed.
+
+
+Lemma E_trim_group prev x : E_item (trim_group prev x) = E_item x.
+Proof.
+  destruct x as [t|d items]; [reflexivity|]. cbn [trim_group].
+  set (items1 := if last_is items s_comma then _ else items).
+  assert (H1 : E items1 = E items).
+  { subst items1. destruct (last_is items s_comma) eqn:Hl; [|reflexivity].
+    destruct (_ || _ || _); [apply (E_removelast_comma _ Hl)|reflexivity]. }
+  rewrite !E_grp. destruct d; try exact H1.
+  destruct (drops_tail_semi items1) eqn:Hd; [|exact H1].
+  rewrite (E_removelast_semi _ Hd). exact H1.
+Qed.
+Lemma E_trim_groups seq : forall prev, E (trim_groups prev seq) = E seq.
+Proof.
+  induction seq as [|x r IH]; intros prev; [reflexivity|].
+  cbn [trim_groups]. cbv zeta. rewrite !E_cons, IH, E_trim_group. reflexivity.
+Qed.
+Lemma E_where_commas seq : forall w a, E (where_commas w a seq) = E seq.
+Proof.
+  induction seq as [|x r IH]; intros w a; [reflexivity|].
+  cbn [where_commas]. cbv zeta.
+  destruct (is_tok x s_comma && is_tok_o (hd_error r) s_gt) eqn:H1.
+  { tok_facts. rewrite IH. ess_done. }
+  match goal with |- context [if ?c then where_commas _ _ r else _] => destruct c eqn:H2 end.
+  { apply andb_true_iff in H2. destruct H2 as [H2 _]. tok_facts. rewrite IH. ess_done. }
+  rewrite !E_cons, IH. reflexivity.
+Qed.
+Lemma E_trailing_seps seq : E (trailing_seps seq) = E seq.
+Proof. unfold trailing_seps. rewrite E_where_commas, E_trim_groups. reflexivity. Qed.
+
+Lemma E_rewrite_loop ctx seq : forall out, E (rewrite_loop ctx out seq) = E (rev out) ++ E seq.
+Proof.
+  induction seq as [seq IH] using len_ind. intros out.
+  destruct seq as [|x rest]; [cbn [rewrite_loop]; ess_done|].
+  cbn [rewrite_loop]. cbv zeta.
+  match goal with |- context [if ?c then rewrite_loop ctx out rest else _] => destruct c eqn:H1 end.
+  { apply andb_true_iff in H1. destruct H1 as [H1 _]. tok_facts. rewrite IH by (cbn [length]; lia). ess_done. }
+  match goal with |- context [if ?c then rewrite_loop ctx out rest else _] => destruct c eqn:H2 end.
+  { apply andb_true_iff in H2. destruct H2 as [H2 _]. tok_facts. rewrite IH by (cbn [length]; lia). ess_done. }
+  match goal with |- context [if ?c then rewrite_loop ctx out rest else _] => destruct c eqn:H3 end.
+  { apply andb_true_iff in H3. destruct H3 as [H3 _]. apply andb_true_iff in H3. destruct H3 as [H3 _].
+    apply andb_true_iff in H3. destruct H3 as [H3 _]. tok_facts. rewrite IH by (cbn [length]; lia). ess_done. }
+  match goal with |- context [if ?c then rewrite_loop ctx (Tok s_abiC :: x :: out) rest else _] => destruct c eqn:H4 end.
+  { rewrite IH by (cbn [length]; lia). ess_done. }
+  assert (Hdef : E (rewrite_loop ctx (x :: out) rest) = E (rev out) ++ E (x :: rest)).
+  { rewrite IH by (cbn [length]; lia). ess_done. }
+  destruct rest as [|[t|d its] rest']; try exact Hdef.
+  destruct d; try exact Hdef.
+  destruct its as [|a [|b [|c more]]]; try exact Hdef.
+  - destruct (is_tok x s_pub && is_tok a s_in && vis_kw b) eqn:H5; [|exact Hdef].
+    tok_facts. rewrite IH by (cbn [length]; lia). ess_done.
+  - destruct (is_tok x s_pub && is_tok a s_in && is_tok b s_coloncolon) eqn:H5; [|exact Hdef].
+    tok_facts. rewrite IH by (cbn [length]; lia). ess_done.
+Qed.
+Lemma E_rewrite o ctx seq : E (rewrite o ctx seq) = E seq.
+Proof.
+  unfold rewrite. rewrite E_trailing_seps.
+  assert (H : E (block_tails (rewrite_loop ctx [] seq)) = E seq).
+  { rewrite E_block_tails, E_rewrite_loop. reflexivity. }
+  destruct (o_macro_def o); [exact H|]. rewrite E_arms_and_closures. exact H.
+Qed.
+
+(* macro_def *)
+Definition E2 (l : list mitem) : list text := E (map fst l).
+Definition mok (p : mitem) : Prop := forall d s, fst p = Grp d s -> E (snd p) = E s.
+Lemma glue2_eq a na b nb rest : glue2 ((Tok a, na) :: (Tok b, nb) :: rest) =
+  if glue_pair a b then (Tok (a ++ b), []) :: glue2 rest else (Tok a, na) :: glue2 ((Tok b, nb) :: rest).
+Proof. reflexivity. Qed.
+Lemma glue2_spec l : E2 (glue2 l) = E2 l /\ (Forall mok l -> Forall mok (glue2 l)).
+Proof.
+  induction l as [|x|x y l IH1 IH2] using list_ind2.
+  - split; [reflexivity|auto].
+  - destruct x as [[a|d its] n]; (split; [reflexivity|auto]).
+  - destruct IH1 as [IH1 IH1f]. destruct IH2 as [IH2 IH2f].
+    destruct x as [[a|d its] na].
+    + destruct y as [[b|d its] nb].
+      * rewrite glue2_eq. destruct (glue_pair a b) eqn:Hg.
+        -- split.
+           ++ unfold E2, mitem in *. cbn [map fst]. rewrite !E_cons, (glue_pair_ess _ _ Hg), IH1, app_assoc. reflexivity.
+           ++ intros HF. inversion HF as [|? ? _ HF1]; subst. inversion HF1 as [|? ? _ HF2]; subst.
+              constructor; [intros d s Hd; discriminate|auto].
+        -- split.
+           ++ unfold E2, mitem in *. cbn [map fst] in *. rewrite (E_cons (Tok a) (map fst (glue2 _))), IH2. reflexivity.
+           ++ intros HF. inversion HF as [|? ? H0 HF1]; subst. constructor; auto.
+      * change (glue2 ((Tok a, na) :: (Grp d its, nb) :: l)) with ((Tok a, na) :: glue2 ((Grp d its, nb) :: l)).
+        split.
+        -- unfold E2, mitem in *. cbn [map fst] in *. rewrite E_cons, IH2. reflexivity.
+        -- intros HF. inversion HF as [|? ? H0 HF1]; subst. constructor; auto.
+    + change (glue2 ((Grp d its, na) :: y :: l)) with ((Grp d its, na) :: glue2 (y :: l)).
+      split.
+      * unfold E2, mitem in *. cbn [map fst] in *. rewrite E_cons, IH2. reflexivity.
+      * intros HF. inversion HF as [|? ? H0 HF1]; subst. constructor; auto.
+Qed.
+
+Lemma split_on_spec (p : mitem -> bool) (Hp : forall x, p x = true -> E_item (fst x) = []) l :
+  forall cur, flat_map E2 (split_on p cur l) = E2 (rev cur) ++ E2 l.
+Proof.
+  induction l as [|x l IH]; intros cur; cbn [split_on].
+  - cbn [flat_map]. unfold E2. cbn [map]. ess_done.
+  - destruct (p x) eqn:Hx.
+    + cbn [flat_map]. rewrite IH. unfold E2. cbn [rev map fst app]. rewrite E_cons, (Hp _ Hx). reflexivity.
+    + rewrite IH. unfold E2. cbn [rev]. rewrite map_app. cbn [map]. ess_done.
+Qed.
+Lemma split_on_Forall (P : mitem -> Prop) p l : forall cur,
+  Forall P cur -> Forall P l -> Forall (Forall P) (split_on p cur l).
+Proof.
+  induction l as [|x l IH]; intros cur Hc Hl; cbn [split_on].
+  - constructor; [apply Forall_rev; exact Hc|constructor].
+  - inversion Hl as [|? ? Hx Hl']; subst. destruct (p x).
+    + constructor; [apply Forall_rev; exact Hc|]. apply IH; [constructor|exact Hl'].
+    + apply IH; [constructor; assumption|exact Hl'].
+Qed.
+Lemma E_macro_arm arm : Forall mok arm -> E (macro_arm arm) = E2 arm.
+Proof.
+  intros HF. unfold macro_arm.
+  assert (Hdef : E (map fst arm ++ [Tok s_semi]) = E2 arm) by (unfold E2; ess_done).
+  destruct arm as [|[x nx] arm]; [reflexivity|].
+  destruct x as [t|d m]; [exact Hdef|].
+  destruct arm as [|[a na] [|[y ny] [|z arm]]]; try exact Hdef; try (destruct y; exact Hdef).
+  destruct y as [t|d2 body]; [exact Hdef|].
+  destruct (is_tok a s_fatarrow) eqn:Ha; [|exact Hdef].
+  apply is_tok_true in Ha. subst a.
+  inversion HF as [|? ? _ HF1]; subst. inversion HF1 as [|? ? _ HF2]; subst. inversion HF2 as [|? ? H3 _]; subst.
+  pose proof (H3 d2 body eq_refl) as H3'. cbn [snd] in H3'.
+  unfold E2. cbn [map fst]. rewrite !E_cons, !E_grp, H3'. ess_done.
+Qed.
+Lemma E_macro_def items : Forall mok items -> E (macro_def items) = E2 items.
+Proof.
+  intros HF. unfold macro_def.
+  destruct (glue2_spec items) as [Hg HgF]. specialize (HgF HF).
+  rewrite <- Hg.
+  transitivity (flat_map E2 (split_on (fun x : mitem => is_tok (fst x) s_semi) [] (glue2 items))).
+  2:{ rewrite split_on_spec; [reflexivity|]. intros x Hx. apply is_tok_true in Hx. rewrite Hx. reflexivity. }
+  pose proof (split_on_Forall mok (fun x : mitem => is_tok (fst x) s_semi) (glue2 items) [] (Forall_nil _) HgF) as HS.
+  induction HS as [|arm arms Harm _ IH]; [reflexivity|].
+  cbn [map concat flat_map]. rewrite E_app, IH, (E_macro_arm _ Harm). reflexivity.
+Qed.
+
+Lemma E_collapse g : E_item (collapse_parens g) = E_item g.
+Proof.
+  induction g as [s|d its IH] using item_ind'; [reflexivity|].
+  destruct d; try reflexivity.
+  destruct its as [|y its1]; [reflexivity|].
+  destruct y as [t|d2 its2]; [reflexivity|].
+  destruct d2; try reflexivity.
+  destruct its1 as [|z its1]; [|reflexivity].
+  inversion IH as [|? ? Hy _]; subst.
+  change (collapse_parens (Grp DParen [Grp DParen its2])) with (collapse_parens (Grp DParen its2)).
+  rewrite Hy. cbn [E_item flat_map]. rewrite app_nil_r. reflexivity.
+Qed.
+
+Definition contents (x : item) : list item := match x with Grp _ s => s | Tok _ => [] end.
+Section Loop.
+Variable rec : opts -> option delim -> item -> list item.
+Definition Prec (x : item) : Prop := forall o ctx, E (rec o ctx x) = E (contents x).
+Definition Pdeep (x : item) : Prop := Prec x /\ Forall Prec (contents x).
+
+Lemma E_norm_loop items : forall o ctx out skip,
+  Forall Pdeep items -> E (norm_loop rec o ctx out skip items) = E (rev out) ++ E items.
+Proof.
+  induction items as [items IH] using len_ind. intros o ctx out skip HF.
+  destruct items as [|x rest].
+  { cbn [norm_loop]. rewrite E_rewrite, E_glue. ess_done. }
+  inversion HF as [|? ? Hx HF']; subst.
+  cbn [norm_loop].
+  destruct (skip && is_tok x s_semi) eqn:Hs.
+  { tok_facts. rewrite IH by (auto; cbn [length]; lia). ess_done. }
+  destruct x as [t|d sub].
+  - (* a string *)
+    assert (Hdef : E (norm_loop rec o ctx (Tok t :: out) false rest) = E (rev out) ++ E (Tok t :: rest)).
+    { rewrite IH by (auto; cbn [length]; lia). ess_done. }
+    destruct rest as [|y rest']; [exact Hdef|].
+    destruct (eqb_text t s_lt && is_tok y s_gt) eqn:Hlt; [|exact Hdef].
+    apply andb_true_iff in Hlt. destruct Hlt as [Ht Hy]. apply eqb_text_spec in Ht. subst t.
+    apply is_tok_true in Hy. subst y.
+    inversion HF' as [|? ? _ HF'']; subst.
+    rewrite IH by (auto; cbn [length]; lia).
+    assert (Ho : forall out', out' = match out with p :: out1 => if is_tok p s_coloncolon || is_tok p s_for then out1 else out | [] => out end -> E (rev out') = E (rev out)).
+    { intros out' ->. destruct out as [|p out1]; [reflexivity|].
+      destruct (is_tok p s_coloncolon) eqn:Hp1; [apply is_tok_true in Hp1; subst p; cbn [orb]; ess_done|].
+      destruct (is_tok p s_for) eqn:Hp2; [apply is_tok_true in Hp2; subst p; cbn [orb]; ess_done|reflexivity]. }
+    rewrite (Ho _ eq_refl). ess_done.
+  - destruct Hx as [Hx Hsub]. cbn [contents] in Hsub.
+    destruct (macro_rules_head out).
+    + rewrite IH by (auto; cbn [length]; lia). ess_done. rewrite E_macro_def.
+      * unfold E2. rewrite map_map. cbn [fst]. rewrite map_id. reflexivity.
+      * clear -Hsub. induction Hsub as [|c l Hc _ IHl]; [constructor|].
+        cbn [map]. constructor; [|exact IHl].
+        intros d s Hd. cbn [fst snd] in *. subst c. apply (Hc (set_macro_def o) (Some DBrace)).
+    + cbv zeta.
+      set (g := if o_remove_nested_parens o && negb (call_like (hd_error out)) then collapse_parens (Grp d (rec o (Some d) (Grp d sub))) else Grp d (rec o (Some d) (Grp d sub))).
+      assert (Hg : E_item g = E sub).
+      { subst g. destruct (o_remove_nested_parens o && negb (call_like (hd_error out))); [rewrite E_collapse|]; rewrite E_grp; apply (Hx o (Some d)). }
+      clearbody g.
+      assert (Hdef : forall sk, E (norm_loop rec o ctx (g :: out) sk rest) = E (rev out) ++ E (Grp d sub :: rest)).
+      { intros sk. rewrite IH by (auto; cbn [length]; lia). ess_done. rewrite Hg. reflexivity. }
+      assert (Hmac : E (norm_loop rec o ctx (match g with Grp _ its => Grp DParen its | Tok _ => g end :: out) true rest) = E (rev out) ++ E (Grp d sub :: rest)).
+      { rewrite IH by (auto; cbn [length]; lia). ess_done. rewrite <- Hg. destruct g; reflexivity. }
+      assert (Hrest : E (match (if is_tok_o (hd_error out) s_bang && match out with _ :: y :: _ => is_ident y | _ => false end
+                then norm_loop rec o ctx (match g with Grp _ its => Grp DParen its | Tok _ => g end :: out) true rest
+                else norm_loop rec o ctx (g :: out) false rest) with l => l end) = E (rev out) ++ E (Grp d sub :: rest)).
+      { destruct (is_tok_o (hd_error out) s_bang && match out with _ :: y :: _ => is_ident y | _ => false end); [exact Hmac|apply Hdef]. }
+      destruct g as [t|[| |] [|[t|d3 s3] [|z its]]]; try exact Hrest.
+      destruct (starts_with_digit t && negb (call_like (hd_error out))); [|exact Hrest].
+      rewrite IH by (auto; cbn [length]; lia). ess_done. rewrite <- Hg. ess_done.
+Qed.
+End Loop.
+
+Lemma norm_in_deep x : Pdeep norm_in x.
+Proof.
+  induction x as [s|d its IH] using item_ind'.
+  - split; [intros o ctx; reflexivity|constructor].
+  - assert (H : Forall (Prec norm_in) its).
+    { clear -IH. induction IH as [|y l [Hy _] _ IHl]; constructor; assumption. }
+    split; [|exact H].
+    intros o ctx. cbn [norm_in contents]. rewrite (E_norm_loop norm_in its o ctx [] false IH). reflexivity.
+Qed.
+Lemma E_norm_seq o ctx items : E (norm_seq o ctx items) = E items.
+Proof.
+  unfold norm_seq. rewrite E_norm_loop; [reflexivity|].
+  induction items as [|x r IH]; constructor; [apply norm_in_deep|exact IH].
+Qed.
+Lemma norm_core_preserves_essential o ts : ess (norm_core o ts) = ess (atoms_of o ts).
+Proof. unfold norm_core, norm_core_items, atoms_of. rewrite !ess_flatten. apply E_norm_seq. Qed.
+
+
+(* merge_derives *)
+Fixpoint M_item (x : item) : list text :=
+  match x with
+  | Tok t => ess_md [t]
+  | Grp _ its => flat_map M_item its
+  end.
+Definition M (seq : list item) : list text := flat_map M_item seq.
+Lemma ess_md_app a b : ess_md (a ++ b) = ess_md a ++ ess_md b.
+Proof. unfold ess_md, unglue. rewrite flat_map_app, filter_app. reflexivity. Qed.
+Lemma ess_md_open d : ess_md [open_text d] = [].
+Proof. destruct d; reflexivity. Qed.
+Lemma ess_md_close d : ess_md [close_text d] = [].
+Proof. destruct d; reflexivity. Qed.
+Lemma M_app a b : M (a ++ b) = M a ++ M b.
+Proof. unfold M. apply flat_map_app. Qed.
+Lemma M_cons x r : M (x :: r) = M_item x ++ M r.
+Proof. reflexivity. Qed.
+Lemma M_grp d its : M_item (Grp d its) = M its.
+Proof. reflexivity. Qed.
+Lemma M_rev_cons x out : M (rev (x :: out)) = M (rev out) ++ M_item x.
+Proof. cbn [rev]. rewrite M_app. cbn [M flat_map]. rewrite app_nil_r. reflexivity. Qed.
+Lemma ess_md_flatten_item x : ess_md (flatten_item x) = M_item x.
+Proof.
+  induction x as [s|d its IH] using item_ind'.
+  - reflexivity.
+  - cbn [flatten_item M_item]. change (open_text d :: ?l) with ([open_text d] ++ l).
+    rewrite !ess_md_app, ess_md_open, ess_md_close, app_nil_r. cbn [app].
+    induction IH as [|y l Hy _ IHl]; [reflexivity|].
+    cbn [flat_map]. rewrite ess_md_app, Hy, IHl. reflexivity.
+Qed.
+Lemma ess_md_flatten seq : ess_md (flatten seq) = M seq.
+Proof.
+  unfold flatten, M. induction seq as [|x r IH]; [reflexivity|].
+  cbn [flat_map]. rewrite ess_md_app, ess_md_flatten_item, IH. reflexivity.
+Qed.
+Lemma Mt_hash : M_item (Tok s_hash) = []. Proof. reflexivity. Qed.
+Lemma Mt_derive : M_item (Tok s_derive) = []. Proof. reflexivity. Qed.
+Lemma Mt_comma : M_item (Tok s_comma) = []. Proof. reflexivity. Qed.
+
+Section MdLoop.
+Variable rec : item -> item.
+Lemma M_md_loop seq : forall out,
+  Forall (fun x => M_item (rec x) = M_item x) seq -> M (md_loop rec out seq) = M (rev out) ++ M seq.
+Proof.
+  induction seq as [|x rest IH]; intros out HF; cbn [md_loop].
+  { cbn [M flat_map]. rewrite app_nil_r. reflexivity. }
+  inversion HF as [|? ? Hx HF']; subst. cbv zeta.
+  assert (Hdef : M (md_loop rec (rec x :: out) rest) = M (rev out) ++ M (x :: rest)).
+  { rewrite IH by exact HF'. rewrite M_rev_cons, M_cons, Hx, app_assoc. reflexivity. }
+  rewrite M_cons, <- Hx. rewrite M_cons, <- Hx in Hdef.
+  destruct (rec x) as [t|d its]; [exact Hdef|].
+  destruct d; try exact Hdef.
+  destruct its as [|dv [|[t|d2 b] [|z its]]]; try exact Hdef.
+  destruct out as [|h1 [|[t|d3 its3] out1]]; try exact Hdef.
+  destruct d3; try exact Hdef.
+  destruct its3 as [|dv0 [|[t|d4 a] [|z its3]]]; try exact Hdef.
+  destruct out1 as [|h3 out']; try exact Hdef.
+  destruct (is_tok dv s_derive && is_tok h1 s_hash && is_tok dv0 s_derive && is_tok h3 s_hash) eqn:Hc; [|exact Hdef].
+  tok_facts. rewrite IH by exact HF'.
+  rewrite !M_rev_cons, !M_grp, !M_cons, !M_grp, !M_app, Mt_hash, Mt_derive.
+  assert (Hc : M (if nonempty a && nonempty b then [Tok s_comma] else []) = []) by (destruct (nonempty a && nonempty b); reflexivity).
+  rewrite Hc. cbn [M flat_map app]. rewrite !app_nil_r, <- !app_assoc. reflexivity.
+Qed.
+End MdLoop.
+Lemma M_md_item x : M_item (md_item x) = M_item x.
+Proof.
+  induction x as [s|d its IH] using item_ind'; [reflexivity|].
+  cbn [md_item]. rewrite !M_grp. rewrite M_md_loop by exact IH. reflexivity.
+Qed.
+Lemma M_merge_derives seq : M (merge_derives seq) = M seq.
+Proof.
+  unfold merge_derives. rewrite M_md_loop; [reflexivity|].
+  induction seq as [|x r IH]; constructor; [apply M_md_item|exact IH].
+Qed.
+Lemma merge_derives_preserves seq : ess_md (flatten (merge_derives seq)) = ess_md (flatten seq).
+Proof. rewrite !ess_md_flatten. apply M_merge_derives. Qed.
+
+(* ess_md is a further filter of ess *)
+Lemma ess_md_of_ess l : ess_md l = filter (fun t => negb (mem_text t [s_hash; s_derive])) (ess l).
+Proof.
+  unfold ess_md, ess, essential_md. induction (unglue l) as [|t r IH]; [reflexivity|].
+  cbn [filter]. destruct (essential t); cbn [andb filter]; rewrite IH; reflexivity.
+Qed.
+Lemma norm_noreorder_preserves o ts : ess_md (norm_noreorder o ts) = ess_md (atoms_of o ts).
+Proof.
+  unfold norm_noreorder.
+  assert (H : ess_md (flatten (norm_core_items o ts)) = ess_md (atoms_of o ts)).
+  { rewrite !ess_md_of_ess. f_equal. apply norm_core_preserves_essential. }
+  destruct (o_merge_derives o); [rewrite merge_derives_preserves|]; exact H.
+Qed.
+
+(* reorder_runs: what is outside the runs stays, in order *)
+Lemma Sub_refl {A : Type} (l : list A) : Sub l l.
+Proof. induction l; constructor; assumption. Qed.
+Lemma Sub_nil_l {A : Type} (l : list A) : Sub [] l.
+Proof. induction l; constructor; assumption. Qed.
+Lemma Sub_app {A : Type} (a1 a2 b1 b2 : list A) : Sub a1 a2 -> Sub b1 b2 -> Sub (a1 ++ b1) (a2 ++ b2).
+Proof. intros H. induction H; intros Hb; cbn [app]; [exact Hb|constructor; auto|constructor; auto]. Qed.
+Lemma Sub_skip_app {A : Type} (p a b : list A) : Sub a b -> Sub a (p ++ b).
+Proof. intros H. induction p; cbn [app]; [exact H|constructor; assumption]. Qed.
+
+Lemma stmts_split_concat seq : forall cur stmts tail,
+  stmts_split cur seq = (stmts, tail) -> rev cur ++ seq = concat stmts ++ tail.
+Proof.
+  induction seq as [|x r IH]; intros cur stmts tail; cbn [stmts_split].
+  - intros H. inversion H; subst. rewrite app_nil_r. reflexivity.
+  - destruct (is_inner_doc x).
+    + destruct (stmts_split [] r) as [ss tl] eqn:Hs. intros H. inversion H; subst.
+      specialize (IH [] ss tail Hs). cbn [rev app] in IH. rewrite concat_app. cbn [concat].
+      rewrite <- !app_assoc. cbn [app]. rewrite <- IH.
+      destruct cur as [|c cur]; [reflexivity|]. cbn [concat]. rewrite app_nil_r. reflexivity.
+    + cbv zeta. match goal with |- context [if ?c then _ else _] => destruct c end.
+      * destruct (stmts_split [] r) as [ss tl] eqn:Hs. intros H. inversion H; subst.
+        specialize (IH [] ss tail Hs). cbn [rev app] in IH. cbn [concat rev]. rewrite <- !app_assoc. cbn [app].
+        rewrite <- IH. reflexivity.
+      * intros H. specialize (IH (x :: cur) stmts tail H). cbn [rev] in IH. rewrite <- app_assoc in IH. exact IH.
+Qed.
+
+Lemma runs_outside o stmts : forall cur, Sub (concat (filter nonrun stmts)) (runs o cur stmts).
+Proof.
+  induction stmts as [|st r IH]; intros cur; cbn [runs filter].
+  - apply Sub_nil_l.
+  - unfold nonrun at 1. destruct (stmt_kind st) as [[[k head] body]|] eqn:Hk.
+    + destruct cur as [[k0 sts]|]; [destruct (rkind_eqb k0 k)|]; try apply IH.
+      apply Sub_skip_app. apply IH.
+    + cbn [concat]. apply Sub_skip_app. apply Sub_app; [apply Sub_refl|apply IH].
+Qed.
+Lemma reorder_runs_outside_lemma o seq stmts tail :
+  stmts_split [] seq = (stmts, tail) ->
+  seq = concat stmts ++ tail /\ Sub (concat (filter nonrun stmts) ++ tail) (reorder_runs o seq).
+Proof.
+  intros H. split.
+  - apply stmts_split_concat in H. exact H.
+  - unfold reorder_runs. rewrite H. apply Sub_app; [apply runs_outside|apply Sub_refl].
+Qed.
+
+(* sorting keeps the elements *)
+Lemma insert_sorted_perm x l : Permutation (insert_sorted x l) (x :: l).
+Proof.
+  induction l as [|y l IH]; cbn [insert_sorted]; [apply Permutation_refl|].
+  destruct (text_leb x y); [apply Permutation_refl|].
+  eapply Permutation_trans; [apply perm_skip; exact IH|apply perm_swap].
+Qed.
+Lemma sort_texts_perm l : Permutation (sort_texts l) l.
+Proof.
+  unfold sort_texts. induction l as [|x l IH]; cbn [fold_right]; [constructor|].
+  eapply Permutation_trans; [apply insert_sorted_perm|apply perm_skip; exact IH].
+Qed.
+Lemma insert_uniq_In x l y : In y (insert_uniq x l) <-> y = x \/ In y l.
+Proof.
+  induction l as [|z l IH]; cbn [insert_uniq In].
+  - split; intros [H|H]; auto.
+  - destruct (eqb_text x z) eqn:He.
+    + apply eqb_text_spec in He. subst z. cbn [In]. split; intros H; [right; exact H|destruct H as [->|H]; [left; reflexivity|exact H]].
+    + destruct (text_leb x z); cbn [In]; [split; intros [H|H]; auto|].
+      rewrite IH. split; intros H; tauto.
+Qed.
+Lemma sort_uniq_In l y : In y (sort_uniq l) <-> In y l.
+Proof.
+  unfold sort_uniq. induction l as [|x l IH]; cbn [fold_right In]; [tauto|].
+  rewrite insert_uniq_In, IH. split; intros [H|H]; auto.
+Qed.
+(* a run of mod / extern crate declarations: the ITEM strings are exactly those of its statements *)
+Lemma flush_run_items_perm o k sts : k <> RUse ->
+  Permutation (flush_run o (Some (k, sts)))
+              (map (fun e => Tok (item_string (join [SP] (flatten (snd e))))) (rev sts)).
+Proof.
+  intros Hk.
+  assert (H : Permutation (map (fun s => Tok (item_string s))
+                  (sort_texts (map (fun e : list item * list item * list item => let '(_, _, st) := e in join [SP] (flatten st)) (rev sts))))
+              (map (fun e : list item * list item * list item => Tok (item_string (join [SP] (flatten (snd e))))) (rev sts))).
+  { eapply Permutation_trans; [apply Permutation_map; apply sort_texts_perm|].
+    rewrite map_map. erewrite map_ext; [apply Permutation_refl|]. intros [[h b] st]. reflexivity. }
+  destruct k; [contradiction Hk; reflexivity|exact H|exact H].
+Qed.
+
+
+(* use_leaves: no path segment and no alias is invented *)
+Section UseSound.
+Variable U : list text.
+Definition okseg (s : text) : Prop := s = [] \/ In s U.
+Definition eok (e : uentry) : Prop :=
+  Forall okseg (fst e) /\ (forall a, snd e = Some a -> In a U).
+Definition stok (st : pstate) : Prop :=
+  match st with
+  | PScan segs _ => Forall okseg segs
+  | PAlias segs => Forall okseg segs
+  | PDone ls => Forall eok ls
+  end.
+Definition inU (x : item) : Prop := forall s, In s (flatten_item x) -> In s U.
+
+Lemma Forall_removelast {A : Type} (P : A -> Prop) l : Forall P l -> Forall P (removelast l).
+Proof.
+  induction l as [|x l IH]; intros H; [constructor|].
+  inversion H as [|? ? Hx Hl]; subst. cbn [removelast]. destruct l; [constructor|].
+  constructor; [exact Hx|apply IH; exact Hl].
+Qed.
+Lemma leaf_ok prefix segs alias :
+  Forall okseg prefix -> Forall okseg segs -> (forall a, alias = Some a -> In a U) ->
+  Forall eok (leaf prefix segs alias).
+Proof.
+  intros Hp Hs Ha. unfold leaf.
+  set (path0 := prefix ++ rev segs).
+  assert (H0 : Forall okseg path0) by (apply Forall_app; split; [exact Hp|apply Forall_rev; exact Hs]).
+  set (path := match rev path0 with l :: _ :: _ => if eqb_text l s_self then removelast path0 else path0 | _ => path0 end).
+  assert (H1 : Forall okseg path).
+  { subst path. destruct (rev path0) as [|l [|l2 r]]; try exact H0.
+    destruct (eqb_text l s_self); [apply Forall_removelast|]; exact H0. }
+  clearbody path. destruct (rev path) as [|l r]; [constructor|].
+  constructor; [|constructor]. split; [exact H1|].
+  cbn [snd]. intros a. destruct alias as [a0|]; [|discriminate].
+  destruct (eqb_text a0 l); [discriminate|]. intros H. apply Ha. exact H.
+Qed.
+Lemma pfinish_ok prefix st : Forall okseg prefix -> stok st -> Forall eok (pfinish prefix st).
+Proof.
+  intros Hp Hst. destruct st as [segs first|segs|ls]; cbn [pfinish stok] in *.
+  - destruct first; [constructor|]. apply leaf_ok; [exact Hp|exact Hst|discriminate].
+  - apply leaf_ok; [exact Hp|exact Hst|discriminate].
+  - exact Hst.
+Qed.
+
+Section Loop.
+Variable rec : list text -> item -> list uentry.
+Variable dr : bool.
+Lemma parse_loop_ok ts : forall prefix st,
+  Forall okseg prefix -> stok st -> Forall inU ts ->
+  Forall (fun t => forall p, Forall okseg p -> Forall eok (rec p t)) ts ->
+  Forall eok (parse_loop rec dr prefix st ts).
+Proof.
+  induction ts as [|t ts IH]; intros prefix st Hp Hst HU Hrec; cbn [parse_loop].
+  - apply pfinish_ok; assumption.
+  - inversion HU as [|? ? Ht HU']; subst. inversion Hrec as [|? ? Hr Hrec']; subst.
+    destruct (is_tok t s_comma).
+    { apply Forall_app. split; [apply pfinish_ok; assumption|].
+      apply IH; try assumption. cbn [stok]. constructor. }
+    destruct st as [segs first|segs|ls].
+    + cbn [stok] in Hst. destruct t as [s|d sub].
+      * assert (Hs : In s U) by (apply Ht; left; reflexivity).
+        destruct (eqb_text s s_as); [apply IH; assumption|].
+        destruct (eqb_text s s_coloncolon).
+        -- apply IH; try assumption. cbn [stok].
+           destruct (first && match prefix with [] => true | _ :: _ => false end && negb dr); [|exact Hst].
+           constructor; [left; reflexivity|exact Hst].
+        -- apply IH; try assumption. cbn [stok]. constructor; [right; exact Hs|exact Hst].
+      * apply IH; try assumption. cbn [stok]. apply Hr.
+        apply Forall_app. split; [exact Hp|apply Forall_rev; exact Hst].
+    + cbn [stok] in Hst. apply IH; try assumption. cbn [stok].
+      apply leaf_ok; [exact Hp|exact Hst|].
+      intros a Ha. destruct t as [s|d sub]; [|discriminate]. inversion Ha; subst. apply Ht. left. reflexivity.
+    + apply IH; assumption.
+Qed.
+End Loop.
+
+Lemma inU_sub d sub : inU (Grp d sub) -> Forall inU sub.
+Proof.
+  intros H. apply Forall_forall. intros y Hy s Hs. apply H. cbn [flatten_item]. right.
+  apply in_or_app. left. apply in_flat_map. exists y. split; assumption.
+Qed.
+Lemma parse_grp_ok dr x : forall prefix, Forall okseg prefix -> inU x -> Forall eok (parse_grp dr prefix x).
+Proof.
+  induction x as [s|d sub IH] using item_ind'; intros prefix Hp HU; cbn [parse_grp]; [constructor|].
+  apply parse_loop_ok; [exact Hp|constructor|apply inU_sub with d; exact HU|].
+  pose proof (inU_sub d sub HU) as HUs. clear HU.
+  induction IH as [|y l Hy _ IHl]; [constructor|].
+  inversion HUs as [|? ? Hyu HUl]; subst. constructor; [|apply IHl; exact HUl].
+  intros p Hpp. apply Hy; assumption.
+Qed.
+End UseSound.
+
+Lemma use_leaves_sound_lemma dr items path alias :
+  In (path, alias) (parse_entries dr items) ->
+  (forall seg, In seg path -> seg = [] \/ In seg (flatten items)) /\
+  (forall a, alias = Some a -> In a (flatten items)).
+Proof.
+  intros H. unfold parse_entries in H.
+  assert (HF : Forall (eok (flatten items)) (parse_loop (parse_grp dr) dr [] (PScan [] true) items)).
+  { assert (HU : Forall (inU (flatten items)) items).
+    { apply Forall_forall. intros y Hy s Hs. unfold flatten. apply in_flat_map. exists y. split; assumption. }
+    apply parse_loop_ok; [constructor|constructor|exact HU|].
+    clear H. revert HU. generalize (flatten items) as U. intros U HU.
+    induction HU as [|y l Hy _ IHl]; [constructor|]. constructor; [|exact IHl].
+    intros p Hp. apply parse_grp_ok; assumption. }
+  rewrite Forall_forall in HF. specialize (HF _ H). destruct HF as [H1 H2]. cbn [fst snd] in *.
+  split; [|exact H2]. intros seg Hs. rewrite Forall_forall in H1. apply H1. exact Hs.
+Qed.
+
+(* use_leaves is the sorted set of the rendered entries *)
+Lemma use_leaves_set_lemma dr items s :
+  In s (use_leaves dr items) <-> exists e, In e (parse_entries dr items) /\ s = render_leaf e.
+Proof.
+  unfold use_leaves, parse_use. rewrite sort_uniq_In, in_map_iff.
+  split; intros [e [H1 H2]]; exists e; split; auto.
+Qed.
 
 (* END-OF-PART *)
